@@ -11,7 +11,7 @@ so an edit of the glue makes generation fail loudly):
   bond_dirty_price_from_ytm   <- Bond.dirty_price_from_ytm     products/bonds/bond.py
         all four YTMCalcType branches, n == 0 and n >= 1, the `+1.2345e-11` shift, `* self.par`, the `n < 0` /
         ZERO / unknown-convention raises.  Parameters instead of glue: the number of schedule dates after settlement
-        (`n = 0; for dt in self.cpn_dts: …` -> `n = n_dates_in`), `annual_frequency(self.freq_type)` -> `freq_in`,
+        (`n = 0; for dt in …: …` -> `n = n_dates_in`; the loop itself is generated in BondLoopR), `annual_frequency(self.freq_type)` -> `freq_in`,
         the CFETS last-period ACT/365L fraction -> `alpha_cfets_in`; dates are serial day numbers;
         `self.alpha`, `self.cpn`, `self.par`, `self.ex_div_dt` are trailing parameters (object state, set by
         `accrued_interest`, generated below).
@@ -131,7 +131,6 @@ DP_DROP = [
     "if settle_dt > self.maturity_dt:\n    raise FinError('Bond settlement is after maturity date')",
     "if convention not in YTMCalcType:\n    raise FinError('Yield convention unknown.' + str(convention))",
     'self.accrued_interest(settle_dt, 1.0)',
-    'for dt in self.cpn_dts:\n    if dt > settle_dt:\n        n += 1',
     "last_year = self.maturity_dt.add_tenor('-12M')",
     'dc = DayCount(DayCountTypes.ACT_365L)',
 ]
@@ -146,7 +145,6 @@ ACC_DROP = [
     'self._calc_pcd_ncd(settle_dt)',
     'dc = DayCount(self.dc_type)',
     'cal = Calendar(self.cal_type)',
-    'self.ex_div_dt = cal.add_business_days(self.ncd, -1 * self.ex_div_days)',
     'self.accrued_days = num',
 ]
 ACC_REPLACE = {
@@ -190,6 +188,25 @@ FRN_PX_DN = 'self.dirty_price_from_dm(settle_dt, next_cpn, current_ibor - dy, fu
 FRN_DD = 'self.dollar_duration(settle_dt, next_cpn, current_ibor, future_ibor, dm)'
 
 
+def without(P, fnode, what, pred, name):
+    """copy of the method without the ONE top-level statement satisfying `pred` — a statement that module BondLoopR
+    generates piece by piece (header / init / body), so its text is not pinned here"""
+    fnode = copy.deepcopy(fnode)
+    hits = [st for st in fnode.body if pred(st)]
+    if len(hits) != 1:
+        raise P.Untranslatable(f'{name}: {len(hits)} top-level statements `{what}` (expected 1)')
+    fnode.body = [st for st in fnode.body if st is not hits[0]]
+    return fnode
+
+
+def _is_dt_loop(st):
+    return isinstance(st, ast.For) and ast.unparse(st.target) == 'dt'
+
+
+def _is_exdiv_store(st):
+    return isinstance(st, ast.Assign) and ast.unparse(st.targets[0]) == 'self.ex_div_dt'
+
+
 def build_bonds(kind):
     def build(P, S):
         from py2lean import FuncSpec, Translator, Dialect, NUM, INT, find_function
@@ -198,8 +215,8 @@ def build_bonds(kind):
         out = []
         tree = S.parse(BOND_PY)
         # ------------------------------------------------------------------------------- Bond.dirty_price_from_ytm
-        fn = prepare(P, find_function(tree, 'Bond.dirty_price_from_ytm'), 'bond_dirty_price_from_ytm',
-                     drop=DP_DROP, subst=DP_SUBST)
+        fn = prepare(P, without(P, find_function(tree, 'Bond.dirty_price_from_ytm'), 'for dt in …', _is_dt_loop,
+                                'bond_dirty_price_from_ytm'), 'bond_dirty_price_from_ytm', drop=DP_DROP, subst=DP_SUBST)
         out.append(tr.function(fn, FuncSpec(
             'Bond.dirty_price_from_ytm', 'bond_dirty_price_from_ytm',
             [('settle_dt', INT), ('ytm', NUM), ('convention', INT), ('n_dates_in', INT), ('freq_in', NUM),
@@ -215,14 +232,16 @@ def build_bonds(kind):
         acc_params = [('settle_dt', INT), ('face', NUM), ('acc_factor_in', NUM)]
         acc_attr = {'self.freq': ('freq', NUM), 'self.cpn': ('cpn', NUM), 'self.ex_div_dt': ('ex_div_dt', INT)}
         acc_extra = [('freq', NUM), ('cpn', NUM), ('ex_div_dt', INT)]
-        fn = prepare(P, find_function(tree, 'Bond.accrued_interest'), 'bond_accrued_interest',
+        acc_src = without(P, find_function(tree, 'Bond.accrued_interest'), 'self.ex_div_dt = …', _is_exdiv_store,
+                          'bond_accrued_interest')
+        fn = prepare(P, acc_src, 'bond_accrued_interest',
                      drop=ACC_DROP, replace=ACC_REPLACE, state=ACC_STATE)
         out.append(tr.function(fn, FuncSpec(
             'Bond.accrued_interest', 'bond_accrued_interest', acc_params, NUM, attr_map=acc_attr,
             extra_params=acc_extra, skip_params=('self',),
             doc='acc_factor_in = DayCount(dc_type).year_frac(pcd, settle_dt, ncd, freq_type)[0]; ex_div_dt = '
                 'Calendar(cal_type).add_business_days(ncd, -ex_div_days) as a serial')))
-        fn = prepare(P, find_function(tree, 'Bond.accrued_interest'), 'bond_alpha',
+        fn = prepare(P, acc_src, 'bond_alpha',
                      drop=ACC_DROP, replace=dict(ACC_REPLACE, **{'return self.accrued_int': 'return self.alpha'}),
                      state=ACC_STATE)
         out.append(tr.function(fn, FuncSpec(
@@ -342,3 +361,271 @@ def build_bonds(kind):
 
 
 MODULES = {'BondF': build_bonds('float'), 'BondR': build_bonds('real')}
+
+
+# ================================================================================================ loops (growth round 6)
+"""BondLoopR — the LOOPS of the bond classes, cut out of the source `for` statements (ℝ / Int, for Props/C07h).
+
+The translator takes no loops; what it takes is every straight-line piece OF a loop:
+
+  <loop>_range / <loop>_slice   the loop header: `range(a, b)` -> `(a, b)`;  `self.cpn_dts[a:b]` -> `(a, b)` with 0 for an
+                                absent bound (so `self.cpn_dts` is `(0, 0)`, `self.cpn_dts[1:]` is `(1, 0)`, `[1:-1]` is `(1, -1)`)
+  <loop>_init                   the assignments that initialise the loop-carried variables (`n = 0`, `px = 0.0; df = 1.0`, …)
+  <loop>_step                   the loop BODY as one function `state -> element -> state` (the comparison operator on the
+                                dates, the index offsets, the ex-dividend test, the arithmetic are the translator's reading)
+  <loop>_tail                   the statements after the loop
+
+Only array / curve / day-count READS become parameters, each by its exact source text (`self.cpn_dts[i_flow]` ->
+`cpn_dt_in`, `discount_curve.df(dt)` -> `df_in`, …); a listed text that no longer occurs exactly as often as stated makes
+generation fail (=> broken obligation).  `_calc_pcd_ncd`'s `break` becomes the Bool `found`, its stores
+`self.pcd = self.cpn_dts[E]` become `pcd_idx = E` (the INDEX expression is what is generated).
+"""
+
+
+def _U(n):
+    return ast.unparse(n)
+
+
+def _mkfn(name, stmts, ret_names):
+    elts = [ast.Name(id=n, ctx=ast.Load()) for n in ret_names]
+    ret = ast.Return(value=ast.Tuple(elts=elts, ctx=ast.Load()) if len(elts) > 1 else elts[0])
+    f = ast.FunctionDef(name=name, args=ast.arguments(posonlyargs=[], args=[], kwonlyargs=[], kw_defaults=[], defaults=[]),
+                        body=list(stmts) + [ret], decorator_list=[], type_params=[])
+    ast.fix_missing_locations(f)
+    return f
+
+
+def _loops(P, fnode, what, target, n=1):
+    """top-level `for <target> in …` loops of the method: [(index in body, loop)]"""
+    found = [(i, st) for i, st in enumerate(fnode.body) if isinstance(st, ast.For) and _U(st.target) == target]
+    if len(found) != n:
+        raise P.Untranslatable(f'{what}: {len(found)} top-level loops `for {target} in …` (expected {n})')
+    return found
+
+
+def _no_jumps(P, loop, what):
+    for x in ast.walk(loop):
+        if isinstance(x, (ast.Break, ast.Continue, ast.Return, ast.For, ast.While)) and x is not loop:
+            raise P.Untranslatable(f'{what}: loop body contains {type(x).__name__}')
+    if loop.orelse:
+        raise P.Untranslatable(f'{what}: loop has an else clause')
+
+
+def _header_stmts(P, it, what, table='self.cpn_dts'):
+    """`range(a, b)` / `table[a:b]` / `table` -> statements `lo = a; hi = b` (absent slice bound = 0)."""
+    if isinstance(it, ast.Call) and _U(it.func) == 'range' and len(it.args) == 2 and not it.keywords:
+        lo, hi = it.args
+    elif _U(it) == table:
+        lo, hi = ast.Constant(0), ast.Constant(0)
+    elif isinstance(it, ast.Subscript) and _U(it.value) == table and isinstance(it.slice, ast.Slice) and it.slice.step is None:
+        lo = it.slice.lower or ast.Constant(0)
+        hi = it.slice.upper or ast.Constant(0)
+    else:
+        raise P.Untranslatable(f'{what}: loop header `{_U(it)}` is not range(a, b) or a slice of {table}')
+    return [ast.Assign(targets=[ast.Name(id='lo', ctx=ast.Store())], value=lo),
+            ast.Assign(targets=[ast.Name(id='hi', ctx=ast.Store())], value=hi)]
+
+
+def _cut(P, stmts, what, drop=(), subst=None, replace=None, counts=None):
+    from registry.swaps import _cut as swaps_cut
+    return swaps_cut(P, stmts, what, drop=drop, subst=subst, replace=replace, counts=counts)
+
+
+def _init_of(P, fnode, upto, names, what):
+    """the LAST plain assignment `name = <expr>` before body index `upto`, for each loop-carried name, in source order"""
+    out = []
+    for nm in names:
+        hits = [st for st in fnode.body[:upto] if isinstance(st, ast.Assign) and len(st.targets) == 1 and _U(st.targets[0]) == nm]
+        if not hits:
+            raise P.Untranslatable(f'{what}: no initial assignment of `{nm}` before the loop')
+        out.append(hits[-1])
+    return out
+
+
+def _exdiv_args(P, fnode, what):
+    """`self.ex_div_dt = cal.add_business_days(A, B)` -> statements `anchor = A; offset = B`"""
+    hits = [st for st in fnode.body if isinstance(st, ast.Assign) and _U(st.targets[0]) == 'self.ex_div_dt']
+    if len(hits) != 1 or not (isinstance(hits[0].value, ast.Call) and _U(hits[0].value.func) == 'cal.add_business_days'
+                              and len(hits[0].value.args) == 2 and not hits[0].value.keywords):
+        raise P.Untranslatable(f'{what}: expected exactly one `self.ex_div_dt = cal.add_business_days(a, b)`')
+    a, b = hits[0].value.args
+    return [ast.Assign(targets=[ast.Name(id='anchor', ctx=ast.Store())], value=a),
+            ast.Assign(targets=[ast.Name(id='offset', ctx=ast.Store())], value=b)]
+
+
+def build_bond_loops(kind):
+    def build(P, S):
+        from py2lean import FuncSpec, Translator, Dialect, NUM, INT, BOOL, find_function
+        consts = dict(S.module_consts(BOND_PY))
+        tr = Translator(Dialect(kind), consts)
+        out = []
+
+        def emit(fn, spec):
+            out.append(tr.function(fn, spec))
+
+        tree = S.parse(BOND_PY)
+        EXA = {'self.pcd': ('pcd', INT), 'self.ncd': ('ncd', INT), 'self.ex_div_days': ('ex_div_days', INT)}
+        EXP = [('pcd', INT), ('ncd', INT), ('ex_div_days', INT)]
+        # ------------------------------------------------------------------------------- Bond._calc_pcd_ncd
+        w = 'Bond._calc_pcd_ncd'
+        f = find_function(tree, w)
+        (_, loop), = _loops(P, f, w, 'i_flow')
+        emit(_mkfn('pcd_ncd_range', _header_stmts(P, loop.iter, w), ['lo', 'hi']),
+             FuncSpec(w + '[loop header]', 'pcd_ncd_range', [('num_flows', INT)], 'tuple:int,int',
+                      doc='`for i_flow in range(lo, hi)`; num_flows = len(self.cpn_dts)'))
+        if len(loop.body) != 1 or not isinstance(loop.body[0], ast.If) or loop.body[0].orelse:
+            raise P.Untranslatable(f'{w}: the loop body is not a single `if` without else')
+        iff = loop.body[0]
+        if not iff.body or not isinstance(iff.body[-1], ast.Break):
+            raise P.Untranslatable(f'{w}: the `if` body does not end in `break`')
+        if not loop.orelse or not isinstance(loop.orelse[-1], ast.Raise):
+            raise P.Untranslatable(f'{w}: the loop has no `else: … raise` (fall-through must raise)')
+        stores = []
+        for st in iff.body[:-1]:
+            ok = (isinstance(st, ast.Assign) and len(st.targets) == 1 and _U(st.targets[0]) in ('self.pcd', 'self.ncd')
+                  and isinstance(st.value, ast.Subscript) and _U(st.value.value) == 'self.cpn_dts'
+                  and not isinstance(st.value.slice, ast.Slice))
+            if not ok:
+                raise P.Untranslatable(f'{w}: unexpected statement in the `if` body: {_U(st)}')
+            stores.append(ast.Assign(targets=[ast.Name(id=_U(st.targets[0])[5:] + '_idx', ctx=ast.Store())], value=st.value.slice))
+        if sorted(_U(s.targets[0]) for s in stores) != ['ncd_idx', 'pcd_idx']:
+            raise P.Untranslatable(f'{w}: the `if` body does not store self.pcd and self.ncd exactly once each')
+        test, _ = _cut(P, [ast.Expr(value=iff.test)], w + ' test', subst={'self.cpn_dts[i_flow]': 'cpn_dt_in'})
+        body = ast.parse('found = False\npcd_idx = -1\nncd_idx = -1').body + [
+            ast.If(test=test[0].value, body=stores + ast.parse('found = True').body, orelse=[])]
+        emit(_mkfn('pcd_ncd_step', body, ['found', 'pcd_idx', 'ncd_idx']),
+             FuncSpec(w + '[loop body]', 'pcd_ncd_step', [('settle_dt', INT), ('i_flow', INT), ('cpn_dt_in', INT)],
+                      'tuple:bool,int,int',
+                      doc='one iteration: cpn_dt_in = self.cpn_dts[i_flow]; found = the `break` is taken; pcd_idx / ncd_idx = the '
+                          'index expressions E of `self.pcd = self.cpn_dts[E]` / `self.ncd = self.cpn_dts[E]` (-1 when not taken)'))
+        # ------------------------------------------------------------------------------- the coupon count of dirty_price_from_ytm
+        w = 'Bond.dirty_price_from_ytm'
+        f = find_function(tree, w)
+        (i, loop), = _loops(P, f, w, 'dt')
+        _no_jumps(P, loop, w)
+        emit(_mkfn('n_count_slice', _header_stmts(P, loop.iter, w), ['lo', 'hi']),
+             FuncSpec(w + '[count loop header]', 'n_count_slice', [], 'tuple:int,int',
+                      doc='`for dt in self.cpn_dts[lo:hi]` (0 = bound absent)'))
+        emit(_mkfn('n_count_init', _init_of(P, f, i, ['n'], w), ['n']),
+             FuncSpec(w + '[count loop init]', 'n_count_init', [], INT))
+        emit(_mkfn('n_count_step', loop.body, ['n']),
+             FuncSpec(w + '[count loop body]', 'n_count_step', [('settle_dt', INT), ('n', INT), ('dt', INT)], INT))
+        # ------------------------------------------------------------------------------- ex-dividend date arguments
+        w = 'Bond.accrued_interest'
+        emit(_mkfn('accrued_exdiv_args', _exdiv_args(P, find_function(tree, w), w), ['anchor', 'offset']),
+             FuncSpec(w + '[ex-dividend date]', 'accrued_exdiv_args', [], 'tuple:int,int', attr_map=EXA, extra_params=EXP,
+                      doc='`self.ex_div_dt = cal.add_business_days(anchor, offset)`'))
+        # ------------------------------------------------------------------------------- Bond.dirty_price_from_discount_curve
+        w = 'Bond.dirty_price_from_discount_curve'
+        f = find_function(tree, w)
+        emit(_mkfn('curve_exdiv_args', _exdiv_args(P, f, w), ['anchor', 'offset']),
+             FuncSpec(w + '[ex-dividend date]', 'curve_exdiv_args', [], 'tuple:int,int', attr_map=EXA, extra_params=EXP,
+                      doc='`self.ex_div_dt = cal.add_business_days(anchor, offset)`'))
+        (i, loop), = _loops(P, f, w, 'dt')
+        _no_jumps(P, loop, w)
+        emit(_mkfn('curve_slice', _header_stmts(P, loop.iter, w), ['lo', 'hi']),
+             FuncSpec(w + '[loop header]', 'curve_slice', [], 'tuple:int,int', doc='`for dt in self.cpn_dts[lo:hi]` (0 = bound absent)'))
+        emit(_mkfn('curve_init', _init_of(P, f, i, ['px', 'df'], w), ['px', 'df']),
+             FuncSpec(w + '[loop init]', 'curve_init', [], 'tuple:num,num'))
+        pay = [st for st in f.body[:i] if _U(st).startswith('pay_first_cpn = ') or
+               (isinstance(st, ast.If) and 'pay_first_cpn' in _U(st))]
+        if len(pay) != 2:
+            raise P.Untranslatable(f'{w}: expected `pay_first_cpn = …` and one `if` that resets it before the loop')
+        emit(_mkfn('curve_pay_first', pay, ['pay_first_cpn']),
+             FuncSpec(w + '[pay_first_cpn]', 'curve_pay_first', [('settle_dt', INT)], NUM,
+                      attr_map={'self.ex_div_dt': ('ex_div_dt', INT)}, extra_params=[('ex_div_dt', INT)]))
+        body, _ = _cut(P, loop.body, w + ' loop', subst={'discount_curve.df(dt)': 'df_in'})
+        emit(_mkfn('curve_step', body, ['px', 'df']),
+             FuncSpec(w + '[loop body]', 'curve_step',
+                      [('settle_dt', INT), ('pay_first_cpn', NUM), ('px', NUM), ('df', NUM), ('dt', INT), ('df_in', NUM)],
+                      'tuple:num,num',
+                      attr_map={'self.pcd': ('pcd', INT), 'self.ncd': ('ncd', INT), 'self.cpn': ('cpn', NUM), 'self.freq': ('freq', NUM)},
+                      extra_params=[('pcd', INT), ('ncd', INT), ('cpn', NUM), ('freq', NUM)],
+                      doc='one iteration, state (px, df); df_in = discount_curve.df(dt); pcd / ncd = self.pcd / self.ncd (set by _calc_pcd_ncd)'))
+        tail = ast.FunctionDef(name='curve_tail', args=ast.arguments(posonlyargs=[], args=[], kwonlyargs=[], kw_defaults=[], defaults=[]),
+                               body=copy.deepcopy(f.body[i + 1:]), decorator_list=[], type_params=[])
+        ast.fix_missing_locations(tail)
+        emit(tail,
+             FuncSpec(w + '[after the loop]', 'curve_tail', [('px', NUM), ('df', NUM), ('df_settle_dt', NUM)], NUM,
+                      attr_map={'self.par': ('par', NUM)}, extra_params=[('par', NUM)]))
+        # ------------------------------------------------------------------------------- BondFRN.dirty_price_from_dm
+        w = 'BondFRN.dirty_price_from_dm'
+        f = find_function(S.parse(FRN_PY), w)
+        (i, loop), = _loops(P, f, w, 'i_flow')
+        _no_jumps(P, loop, w)
+        emit(_mkfn('frn_range', _header_stmts(P, loop.iter, w), ['lo', 'hi']),
+             FuncSpec(w + '[loop header]', 'frn_range', [('num_flows', INT)], 'tuple:int,int'))
+        head, _ = _cut(P, f.body[:i], w + ' head',
+                       drop=['day_counter = DayCount(self.dc_type)', 'num_flows = len(self.cpn_dts)'],
+                       replace={'alpha, _, _ = day_counter.year_frac(settle_dt, self.ncd)': 'alpha = alpha0_in',
+                                'alpha, _, _ = day_counter.year_frac(self.pcd, self.ncd)': 'alpha = alpha1_in'})
+        head = [st for st in head if not (isinstance(st, ast.Expr) and isinstance(st.value, ast.Constant))]
+        emit(_mkfn('frn_init', head, ['pv', 'df']),
+             FuncSpec(w + '[before the loop]', 'frn_init',
+                      [('next_cpn', NUM), ('current_ibor', NUM), ('dm', NUM), ('alpha0_in', NUM), ('alpha1_in', NUM)], 'tuple:num,num',
+                      attr_map={'self.quoted_margin': ('quoted_margin', NUM)}, extra_params=[('quoted_margin', NUM)],
+                      doc='alpha0_in = year_frac(settle_dt, self.ncd)[0], alpha1_in = year_frac(self.pcd, self.ncd)[0]'))
+        if len(loop.body) != 1 or not isinstance(loop.body[0], ast.If) or loop.body[0].orelse:
+            raise P.Untranslatable(f'{w}: the loop body is not a single `if` without else')
+        per = [st for st in loop.body[0].body if isinstance(st, ast.Assign) and _U(st.targets[0]) in ('pcd', 'ncd')]
+        if [(_U(s.targets[0]), _U(s.value.value) if isinstance(s.value, ast.Subscript) else '') for s in per] != \
+                [('pcd', 'self.cpn_dts'), ('ncd', 'self.cpn_dts')]:
+            raise P.Untranslatable(f'{w}: expected `pcd = self.cpn_dts[…]` then `ncd = self.cpn_dts[…]` in the loop body')
+        emit(_mkfn('frn_period_idx', [ast.Assign(targets=[ast.Name(id=_U(s.targets[0]) + '_idx', ctx=ast.Store())], value=s.value.slice)
+                                      for s in per], ['pcd_idx', 'ncd_idx']),
+             FuncSpec(w + '[accrual period of a future coupon]', 'frn_period_idx', [('i_flow', INT)], 'tuple:int,int',
+                      doc='index expressions of `pcd = self.cpn_dts[E]`, `ncd = self.cpn_dts[E]`'))
+        body, _ = _cut(P, loop.body, w + ' loop', drop=[_U(s) for s in per],
+                       subst={'self.cpn_dts[i_flow]': 'cpn_dt_in'},
+                       replace={'alpha, _, _ = day_counter.year_frac(pcd, ncd)': 'alpha = alpha_in'})
+        emit(_mkfn('frn_step', body, ['pv', 'df']),
+             FuncSpec(w + '[loop body]', 'frn_step',
+                      [('future_ibor', NUM), ('dm', NUM), ('q', NUM), ('pv', NUM), ('df', NUM), ('cpn_dt_in', INT), ('alpha_in', NUM)],
+                      'tuple:num,num', attr_map={'self.ncd': ('self_ncd', INT)}, extra_params=[('self_ncd', INT)],
+                      doc='one iteration, state (pv, df); cpn_dt_in = self.cpn_dts[i_flow], alpha_in = year_frac(pcd, ncd)[0] of frn_period_idx'))
+        tail = ast.FunctionDef(name='frn_tail', args=ast.arguments(posonlyargs=[], args=[], kwonlyargs=[], kw_defaults=[], defaults=[]),
+                               body=copy.deepcopy(f.body[i + 1:]), decorator_list=[], type_params=[])
+        ast.fix_missing_locations(tail)
+        emit(tail, FuncSpec(w + '[after the loop]', 'frn_tail', [('pv', NUM), ('df', NUM)], NUM,
+                            attr_map={'self.par': ('par', NUM)}, extra_params=[('par', NUM)]))
+        # ------------------------------------------------------------------------------- BondAnnuity
+        atree = S.parse(ANN_PY)
+        w = 'BondAnnuity.dirty_price_from_discount_curve'
+        f = find_function(atree, w)
+        (i, loop), = _loops(P, f, w, 'i')
+        _no_jumps(P, loop, w)
+        emit(_mkfn('annuity_range', _header_stmts(P, loop.iter, w), ['lo', 'hi']),
+             FuncSpec(w + '[loop header]', 'annuity_range', [('num_flows', INT)], 'tuple:int,int'))
+        emit(_mkfn('annuity_init', _init_of(P, f, i, ['pv'], w), ['pv']), FuncSpec(w + '[loop init]', 'annuity_init', [], NUM))
+        body, _ = _cut(P, loop.body, w + ' loop', drop=['dt = self.cpn_dts[i]'],
+                       subst={'discount_curve.df(dt)': 'df_in', 'self.flow_amounts[i]': 'flow_in'})
+        emit(_mkfn('annuity_step', body, ['pv']),
+             FuncSpec(w + '[loop body]', 'annuity_step', [('pv', NUM), ('df_in', NUM), ('flow_in', NUM)], NUM,
+                      doc='df_in = discount_curve.df(self.cpn_dts[i]), flow_in = self.flow_amounts[i]'))
+        tail = ast.FunctionDef(name='annuity_tail', args=ast.arguments(posonlyargs=[], args=[], kwonlyargs=[], kw_defaults=[], defaults=[]),
+                               body=copy.deepcopy(f.body[i + 1:]), decorator_list=[], type_params=[])
+        ast.fix_missing_locations(tail)
+        emit(tail, FuncSpec(w + '[after the loop]', 'annuity_tail', [('pv', NUM)], NUM,
+                            attr_map={'self.par': ('par', NUM)}, extra_params=[('par', NUM)]))
+        w = 'BondAnnuity.calculate_payments'
+        f = find_function(atree, w)
+        (i, loop), = _loops(P, f, w, 'next_dt')
+        _no_jumps(P, loop, w)
+        emit(_mkfn('annuity_flow_slice', _header_stmts(P, loop.iter, w), ['lo', 'hi']),
+             FuncSpec(w + '[loop header]', 'annuity_flow_slice', [], 'tuple:int,int'))
+        body, outs = _cut(P, loop.body, w + ' loop', drop=['prev_dt = next_dt'],
+                          subst={'basis.year_frac(prev_dt, next_dt, next_dt, self.freq_type)[0]': 'alpha_in'})
+        if outs != ['flow_amounts_out']:
+            raise P.Untranslatable(f'{w}: tables appended {outs}')
+        emit(_mkfn('annuity_flow_step', body, ['flow_amounts_out']),
+             FuncSpec(w + '[loop body]', 'annuity_flow_step', [('face', NUM), ('alpha_in', NUM)], NUM,
+                      attr_map={'self.cpn': ('cpn', NUM)}, extra_params=[('cpn', NUM)],
+                      doc='the element appended to self.flow_amounts; alpha_in = year_frac(prev_dt, next_dt, next_dt, freq_type)[0], '
+                          'prev_dt = next_dt afterwards (consecutive schedule dates)'))
+        ns = 'BondLoopR'
+        body = prelude(ns, kind) + '\n'.join(out) + f'\nend FinVerif.Gen.{ns}\n'
+        return SOURCES, body
+    return build
+
+
+MODULES['BondLoopR'] = build_bond_loops('real')
